@@ -105,7 +105,8 @@ func genesis(r *sim.Rng, nv, nKeys int) *sim.GenesisSpec {
 	p.Consensus.ProtocolVersion = fsm.NewProtocolVersion(0, 2) // committee-scoped slashing (the modelled path)
 	g.Params = p
 	for i := 0; i < nv; i++ {
-		g.Validators = append(g.Validators, sim.StdValidator(i, r.Pick(1, 5, 1000, 1000, 250000)))
+		// members of one to three committees (slashes are budgeted per committee)
+		g.Validators = append(g.Validators, sim.StdValidator(i, r.Pick(1, 5, 1000, 1000, 250000), [][]uint64{{1}, {1, 2}, {1, 2, 3}}[r.Intn(3)]...))
 	}
 	for i := 0; i < nKeys; i++ {
 		g.Accounts = append(g.Accounts, &fsm.Account{Address: sim.BLSKey(i).Addr, Amount: r.Pick(0, 20000, 3_000_000_000, 5_000_000_000)})
@@ -115,15 +116,16 @@ func genesis(r *sim.Rng, nv, nKeys int) *sim.GenesisSpec {
 }
 
 var wSlash *sim.CaseWriter
+var outDirG = "."
 
 // slashCase: the real SlashValidator on a committee member (not a delegate: see DESIGN.md O-7) of the current state, with
 // percentages around the per-committee cap, 100% and dust stakes; sometimes twice in a row (the per-block tracker then holds
 // the first slash), sometimes for a chain the validator is not a member of
+// ownTracker: the harness's own account of the per-block slash budget (validator -> committee -> percent slashed so far in this
+// block), kept independently of the implementation's tracker
+var ownTracker = map[string]map[uint64]uint64{}
+
 func slashCase(r *sim.Rng, n *sim.FNode, gen *sim.TxGen) {
-	pre, e := sim.ScanState(n.FSM)
-	if e != nil {
-		panic(e)
-	}
 	var cands []*fsm.Validator
 	vals, _ := n.FSM.GetValidators()
 	for _, v := range vals {
@@ -140,24 +142,63 @@ func slashCase(r *sim.Rng, n *sim.FNode, gen *sim.TxGen) {
 	if r.Chance(8) {
 		chain = 777
 	}
-	if r.Chance(70) {
+	if r.Chance(40) {
 		n.FSM.VerifResetSlashTracker()
+		ownTracker = map[string]map[uint64]uint64{}
 	}
 	percent := r.Pick(0, 1, 5, 10, 14, 15, 16, 50, 60, 99, 100, 150)
+	// sometimes the slash lands in the very block in which the validator's unstaking finishes
+	h0, atUnstakingHeight := n.FSM.Height(), false
+	if v.UnstakingHeight != 0 && r.Chance(60) {
+		n.FSM.VerifSetHeight(v.UnstakingHeight)
+		atUnstakingHeight = true
+		if r.Chance(70) {
+			percent = 100
+		}
+	}
+	defer n.FSM.VerifSetHeight(h0)
+	pre, e := sim.ScanState(n.FSM)
+	if e != nil {
+		panic(e)
+	}
 	already, scoped, found, err := n.FSM.VerifSlash(v.Address, chain, percent)
 	if !scoped || !found {
 		st.Skipped["slash-not-scoped"]++
 		return
+	}
+	// the budget the implementation worked with must be what was really slashed for this committee so far in this block
+	key := string(v.Address)
+	if ownTracker[key] == nil {
+		ownTracker[key] = map[uint64]uint64{}
+	}
+	if want := ownTracker[key][chain]; already != want && (propNo == 0 || propNo == 12 || propNo == 4) {
+		sim.Direct(outDirG, map[string]any{"finding": "slash-budget-forgotten", "kind": "the per-block slash budget of a committee differs from what that committee has slashed so far in this block",
+			"validator": fmt.Sprintf("%x", v.Address), "committee": chain, "tracker_says": already, "really_slashed": want})
+	}
+	if cap := pre.Params.MaxSlashPerCommittee; already < cap {
+		applied := percent
+		if cap <= already+percent {
+			applied = cap - already
+		}
+		ownTracker[key][chain] += applied
 	}
 	post, e := sim.ScanState(n.FSM)
 	if e != nil {
 		panic(e)
 	}
 	lit := fmt.Sprintf("mkSl %s %s %s %s %s %s %s", pre.Lit(), sim.AddrN(v.Address), sim.CoqN(chain), sim.CoqN(percent), sim.CoqN(already), sim.CoqBool(err != nil), post.Lit())
-	wSlash.Add(lit, map[string]any{"kind": "slash", "percent": percent, "already": already, "chain": chain, "stake": v.StakedAmount, "err": err != nil})
+	wSlash.Add(lit, map[string]any{"kind": "slash", "percent": percent, "already": already, "chain": chain, "stake": v.StakedAmount, "err": err != nil, "at_unstaking_height": atUnstakingHeight})
 	st.Cases++
 	st.TxCases["slash"]++
 	st.Distinct++
+	if atUnstakingHeight {
+		// the end-block sweep of this very height must still go through (the chain must not wedge)
+		if derr := n.FSM.DeleteFinishedUnstaking(); derr != nil && (propNo == 0 || propNo == 12) {
+			sim.Direct(outDirG, map[string]any{"finding": "block-cannot-be-produced", "kind": "DeleteFinishedUnstaking fails after a slash in the block in which the validator's unstaking finishes",
+				"percent": percent, "stake": v.StakedAmount, "error": derr.Error()})
+		}
+		st.TxOutcome["slash-at-unstaking-height"]++
+	}
 }
 
 func txMode(r *sim.Rng, nStates, perState int, cw *sim.CaseWriter, outDir string) {
@@ -168,12 +209,17 @@ func txMode(r *sim.Rng, nStates, perState int, cw *sim.CaseWriter, outDir string
 		if err != nil {
 			panic(err)
 		}
+		ownTracker = map[string]map[uint64]uint64{}
 		gen := sim.NewTxGen(r.Fork(), nKeys)
 		for c := 0; c < perState; c++ {
 			n.Enter()
 			if c%9 == 8 { // move on: commit what was applied so far as a block, so heights and deferred actions advance
+				ownTracker = map[string]map[uint64]uint64{}
 				if out := n.Apply(&sim.BlockSpec{}); out.Err != nil {
 					st.BlockErrs++
+					if propNo == 0 || propNo == 12 {
+						sim.Direct(outDir, map[string]any{"finding": "block-cannot-be-produced", "kind": "an empty block cannot be produced on a generated state (chain wedged)", "height": n.FSM.Height(), "error": out.Err.Error()})
+					}
 					break
 				}
 			}
@@ -362,6 +408,7 @@ func main() {
 	prop := flag.Int("prop", 0, "judge the observations for this property only (4, 7, 12, 20; 0 = all)")
 	flag.Parse()
 	propNo = *prop
+	outDirG = *outDir
 	r := sim.NewRng(sim.SeedFromEnv())
 	imp := "From V Require Import U64 Extracted Ledger LedgerCheck."
 	w1 := &sim.CaseWriter{OutDir: *outDir, Name: "c04tx", Imports: imp, CaseType: "tx_case", MFun: "tx_mismatches", VFun: fmt.Sprintf("tx_violations_for %d", *prop), PerShard: 25}
